@@ -415,7 +415,7 @@ fn long_list(ctx: &Ctx, ty: usize, auto: bool, rep: &mut Report) {
 
 pub fn run(ctx: &Ctx) -> Outcome {
     let jobs: Vec<(usize, bool, u8)> = (0..TYPES.len()).flat_map(|t| [(t, false, 0u8), (t, true, 0), (t, false, 1), (t, true, 1), (t, t % 2 == 0, 2)]).collect();
-    let report = run_sharded(ctx, jobs.len(), |i, rep| {
+    let mut report = run_sharded(ctx, jobs.len(), |i, rep| {
         let (ty, auto, kind) = jobs[i];
         if kind == 2 {
             long_list(ctx, ty, auto, rep);
@@ -426,6 +426,12 @@ pub fn run(ctx: &Ctx) -> Outcome {
         }
         rep.count("jobs_done");
     });
+    {
+        // the same calls from a thread-local destructor while a thread exits (see exitprobe.rs)
+        let mut at_exit = Report::new();
+        crate::exitprobe::check("controller", "controller_postconditions", &mut at_exit);
+        report.merge(at_exit);
+    }
     let cells = report.set_len("prior_state_x_type");
     let floors = vec![
         floor("all jobs (11 types x 2 styles x {explored, abandoned} + 11 long lists)", report.get("jobs_done") == 55, report.get("jobs_done")),
